@@ -18,6 +18,7 @@ import (
 	"verif/engine/runner"
 	"verif/engine/simnet"
 	"verif/engine/vrand"
+	"verif/engine/vsched"
 	"verif/harness/world"
 )
 
@@ -111,6 +112,12 @@ type Params struct {
 	DropK    int    // UDP: deterministically drop every K-th datagram (0 = off) ...
 	DropDir  string // ... sent by "client", "server" or "" (both)
 	Horizon  time.Duration
+	// ReadDelay: both applications wait this long (virtual) before their first Read, so that
+	// everything the peer wrote meanwhile piles up in the session's receive structures
+	ReadDelay time.Duration
+	// Raw: drive protocol.Mux directly (no socks5 request in front: the application's own
+	// first Write is what rides on the open session request); one session only
+	Raw bool
 }
 
 func (p Params) String() string {
@@ -122,6 +129,12 @@ func (p Params) String() string {
 	}
 	if p.PadMax {
 		s += " padmax"
+	}
+	if p.ReadDelay != 0 {
+		s += fmt.Sprintf(" read-delay=%v", p.ReadDelay)
+	}
+	if p.Raw {
+		s += " raw-mux"
 	}
 	return s
 }
@@ -185,7 +198,7 @@ func ExecWith(p Params, pats []NamedTP, ctl *explore.Ctl, mon Monitor, adjust fu
 	cfg := world.Config{
 		UDP: p.UDP, MTU: p.MTU, Latency: p.Latency,
 		ClientTP: FindTP(pats, p.CTP), ServerTP: FindTP(pats, p.STP), NoWait: p.NoWait,
-		Mux: appctlpb.MultiplexingLevel_MULTIPLEXING_HIGH, Seed: p.Seed, Horizon: hz,
+		Mux: appctlpb.MultiplexingLevel_MULTIPLEXING_HIGH, Seed: p.Seed, Horizon: hz, RawMux: p.Raw,
 		C2S: simnet.StreamOpts{MaxRead: p.MaxRead, Splits: p.SplitC}, S2C: simnet.StreamOpts{MaxRead: p.MaxRead, Splits: p.SplitS},
 	}
 	if cfg.MTU == 0 {
@@ -247,7 +260,15 @@ func ExecWith(p Params, pats []NamedTP, ctl *explore.Ctl, mon Monitor, adjust fu
 		all.Go("srv-accept", "server", func() {
 			var sg world.Group
 			for i := 0; i < p.NSess; i++ {
-				c, tag, err := w.Accept()
+				var c net.Conn
+				var tag int
+				var err error
+				if p.Raw {
+					c, err = w.RawAccept()
+					tag = 1000
+				} else {
+					c, tag, err = w.Accept()
+				}
 				if err != nil {
 					v.Add("accept-failed", "server Accept #%d: %v", i, err)
 					return
@@ -259,6 +280,9 @@ func ExecWith(p Params, pats []NamedTP, ctl *explore.Ctl, mon Monitor, adjust fu
 				}
 				sg.Go(fmt.Sprintf("srv-w%d", id), "server", func() { writer(v, c, id, 's', p.SW) })
 				sg.Go(fmt.Sprintf("srv-r%d", id), "server", func() {
+					if p.ReadDelay != 0 {
+						vsched.Sleep(p.ReadDelay)
+					}
 					if reader(v, c, id, 'c', Sum(p.CW), p.RB) {
 						completed++
 					}
@@ -270,7 +294,13 @@ func ExecWith(p Params, pats []NamedTP, ctl *explore.Ctl, mon Monitor, adjust fu
 		for k := 0; k < p.NSess; k++ {
 			k := k
 			all.Go(fmt.Sprintf("cli%d", k), "client", func() {
-				c, err := w.Dial(1000 + k)
+				var c net.Conn
+				var err error
+				if p.Raw {
+					c, err = w.RawDial()
+				} else {
+					c, err = w.Dial(1000 + k)
+				}
 				if err != nil {
 					v.Add("dial-failed", "client Dial #%d: %v", k, err)
 					return
@@ -279,6 +309,9 @@ func ExecWith(p Params, pats []NamedTP, ctl *explore.Ctl, mon Monitor, adjust fu
 				var cg world.Group
 				cg.Go(fmt.Sprintf("cli-w%d", k), "client", func() { writer(v, c, k, 'c', p.CW) })
 				cg.Go(fmt.Sprintf("cli-r%d", k), "client", func() {
+					if p.ReadDelay != 0 {
+						vsched.Sleep(p.ReadDelay)
+					}
 					if reader(v, c, k, 's', Sum(p.SW), p.RB) {
 						completed++
 					}
@@ -344,7 +377,13 @@ func bucket(ns int64) int {
 func writer(v *Verdict, c net.Conn, id int, dir byte, sizes []int) {
 	off := 0
 	for _, n := range sizes {
-		m, err := c.Write(world.Pattern(id, dir, off, n))
+		buf := world.Pattern(id, dir, off, n)
+		m, err := c.Write(buf)
+		// the application reuses its buffer as soon as Write has returned (io.Writer:
+		// "Write must not retain p")
+		for i := range buf {
+			buf[i] = 0xa5 ^ byte(i)
+		}
 		if err != nil {
 			v.Add("write-error", "session %d dir %c: Write(%d) at offset %d returned (%d, %v) while the connection was open", id, dir, n, off, m, err)
 			return
